@@ -789,7 +789,9 @@ class LibMixin:
             hi_t = self.clamp(self.num(hi, st)[0], n) if hi is not None else n
             hi_t = z3.If(hi_t < lo_t, lo_t, hi_t)
             f = z3.Function('bslice', Bytes, z3.IntSort(), z3.IntSort(), Bytes)
-            r = f(t, lo_t, hi_t)
+            # a named result: the clamped bounds contain if-then-else terms, which must not occur in quantifier patterns
+            r = fresh('bsl', Bytes)
+            st.assume(r == f(t, lo_t, hi_t))
             st.assume(blen(r) == hi_t - lo_t)
             i = z3.Int('i!bs')
             st.assume(z3.ForAll([i], z3.Implies(z3.And(0 <= i, i < hi_t - lo_t), bat(r, i) == bat(t, i + lo_t)),
